@@ -670,6 +670,11 @@ func genTreeRT(r *rand.Rand, id int) *Tree {
 			if chance(r, 0.3) {
 				sub := &CmdNode{Name: "sub" + itoa(i), Style: "exec", SubOpt: true}
 				sub.Extra = append(sub.Extra, grp("Sub Group "+itoa(i), 1+r.Intn(2), 0))
+				if chance(r, 0.4) { // a third level: its section is named by the whole path (top.sub.leaf)
+					leaf := &CmdNode{Name: "leaf" + itoa(i), Style: "exec", SubOpt: true}
+					leaf.Extra = append(leaf.Extra, grp("Leaf Group "+itoa(i), 1+r.Intn(2), 0))
+					sub.Cmds = append(sub.Cmds, leaf)
+				}
 				c.Cmds = append(c.Cmds, sub)
 			}
 			root.Cmds = append(root.Cmds, c)
@@ -788,6 +793,76 @@ func lastPart(path string) string {
 		return path[i+1:]
 	}
 	return path
+}
+
+// decorateFieldAliases lets some options of nested groups carry the Go field name of an option of an enclosing group
+// (Host / Database.Host): the INI reader ranks a key that equals the field name above long and short names and, among
+// equals, takes the first option in traversal order of the section's group.
+func decorateFieldAliases(r *rand.Rand, t *Tree, p float64) {
+	Flatten(t)
+	var walkG func(g *GroupNode, above []*OptNode)
+	walkG = func(g *GroupNode, above []*OptNode) {
+		used := map[string]bool{}
+		for _, o := range g.Opts {
+			used[o.field] = true
+		}
+		for _, o := range g.Opts {
+			if len(above) == 0 || o.FieldAlias != "" || !chance(r, p) {
+				continue
+			}
+			a := pick(r, above)
+			if used[a.field] {
+				continue
+			}
+			delete(used, o.field)
+			o.FieldAlias, o.field = a.field, a.field
+			used[a.field] = true
+		}
+		for _, sg := range g.Groups {
+			walkG(sg, append(append([]*OptNode{}, above...), g.Opts...))
+		}
+	}
+	var walkC func(c *CmdNode)
+	walkC = func(c *CmdNode) {
+		if c.Own != nil {
+			walkG(c.Own, nil)
+		}
+		for _, g := range c.Extra {
+			walkG(g, nil)
+		}
+		for _, sc := range c.Cmds {
+			walkC(sc)
+		}
+	}
+	walkC(t.Root)
+}
+
+// decorateInline moves the last options of some groups into an untagged struct field (by value or behind a non-nil
+// pointer).  The library flattens such a field into the enclosing group; the declaration TLC reads does not change.
+func decorateInline(r *rand.Rand, t *Tree, p float64) {
+	var walkG func(g *GroupNode)
+	walkG = func(g *GroupNode) {
+		if len(g.Opts) > 0 && chance(r, p) {
+			g.Inline = pick(r, []string{"ptr", "ptr", "val"})
+			g.InlineFrom = r.Intn(len(g.Opts))
+		}
+		for _, sg := range g.Groups {
+			walkG(sg)
+		}
+	}
+	var walkC func(c *CmdNode)
+	walkC = func(c *CmdNode) {
+		if c.Own != nil {
+			walkG(c.Own)
+		}
+		for _, g := range c.Extra {
+			walkG(g)
+		}
+		for _, sc := range c.Cmds {
+			walkC(sc)
+		}
+	}
+	walkC(t.Root)
 }
 
 // decorateIniNames gives some options an ini-name: mostly harmless ones, now and then one that collides - with another
